@@ -330,6 +330,7 @@ def search_examples(c, rep, variant, seed, budget_s=40, limit=400):
     rnd = random.Random(seed)
     t0 = time.time()
     n = 0
+    budget_s = getattr(c, 'example_budget_s', budget_s)
     E.reset(c.mode)
     E.concrete = True
     try:
